@@ -404,3 +404,24 @@ def big_instance_database(rng, zmode='every', depth=7):
     g.add('goal', [], concl)
     lines.append(g.assertion_text('goal', '$p', proof))
     return '\n'.join(lines) + '\n', ['goal']
+
+
+def nested_constant_database(rng, zmode='none'):
+    """a constant that occurs ONLY inside doubly nested axiom blocks the proof cites (never in a substituted term, so its
+    syntax axiom is not cited): the slice must still declare it"""
+    g = Gen(rng, nconstr=rng.choice([1, 2]), naxioms=1, nrules=0)
+    g.constr.append(('\\cu', 0))
+    body = ('\\imp', ('\\cu',), 'ph0')
+    g.add('ax-v', [], body)
+    g.add('rule-u', [body], 'ph0')
+    lines = g.preamble() + [g.assertion_text(l) for l in g.order if l not in ('ax-v', 'rule-u')]
+    lines += ['${', '   ${', '      $d ph0 ph3 $.', f'      ax-v $a |- {show(body)} $.', '   $}', '$}',
+              '${', '   ${', f'      rule-u.0 $e |- {show(body)} $.', '      rule-u $a |- ph0 $.', '   $}', '$}']
+    T = g.term(2, VARS[1:3])
+    pf_v, _ = g.apply('ax-v', {'ph0': T}, [])
+    pf, concl = g.apply('rule-u', {'ph0': T}, [pf_v])
+    mand = [f'{v}-is-pattern' for v in VARS if v in tvars(concl)]
+    listed, letters = compress(pf, mand, zmode, rng)
+    g.add('goal', [], concl)
+    lines.append(g.assertion_text('goal', '$p', '( ' + ' '.join(listed) + (' ' if listed else '') + ') ' + letters))
+    return '\n'.join(lines) + '\n', ['goal']
